@@ -184,6 +184,12 @@ func pinnedC13() []*pgen.Case {
 		mk("pin_automap_dot", "// goverter:converter\ntype Converter interface {\n\t// goverter:autoMap .Name\n\tM(source In) Out\n}\ntype In struct{ Name string }\ntype Out struct{ Name string }\n"),
 		mk("pin_automap_dot2", "// goverter:converter\ntype Converter interface {\n\t// goverter:autoMap .\n\tM(source In) Out\n}\ntype In struct{ Name string }\ntype Out struct{ Name string }\n"),
 		mk("pin_map_dotdot", "// goverter:converter\ntype Converter interface {\n\t// goverter:map N..X X\n\tM(source In) Out\n}\ntype In struct{ N struct{ X string } }\ntype Out struct{ X string }\n"),
+		mk("pin_raw_unbalanced", "// goverter:converter\n// goverter:output:raw func broken( {\ntype Converter interface {\n\tM(source int) int\n}\n"),
+		mk("pin_raw_unbalanced_cli", "// goverter:converter\ntype Converter interface {\n\tM(source int) int\n}\n", "-g", "output:raw }"),
+		mk("pin_name_invalid", "// goverter:converter\n// goverter:name 1Bad\ntype Converter interface {\n\tM(source int) int\n}\n"),
+		mk("pin_pkgname_invalid", "// goverter:converter\n// goverter:output:package vcase/pin_pkgname_invalid/p/generated:9x\ntype Converter interface {\n\tM(source int) int\n}\n"),
+		mk("pin_update_func_field", "// goverter:converter\n// goverter:skipCopySameType\ntype Converter interface {\n\t// goverter:update target\n\t// goverter:update:ignoreZeroValueField\n\tM(source struct{ F func() int; V int }, target *Out)\n}\ntype Out struct{ F func() int; V int }\n"),
+		mk("pin_update_func_map", "// goverter:converter\ntype Converter interface {\n\t// goverter:update target\n\t// goverter:update:ignoreZeroValueField:nillable\n\t// goverter:map F F | Identity\n\tM(source In, target *Out)\n}\ntype In struct{ F func() int }\ntype Out struct{ F func() int }\nfunc Identity(f func() int) func() int { return f }\n"),
 		mk("pin_chan_temp", "// goverter:converter\n// goverter:useZeroValueOnPointerInconsistency\n// goverter:skipCopySameType\ntype Converter interface {\n\tM(source *chan int) chan int\n}\n"),
 	}
 }
